@@ -533,7 +533,10 @@ func (ps *parser) list() *Node {
 			sep := ps.next().Val
 			var e *Node
 			if sep == "::=" {
-				e = ps.expr(59)
+				// Perennial declares "f ::= v" at level 60 (as far as I remember); goose prints comparison
+				// operators (level 70) unparenthesised here. Whether Coq accepts that cannot be checked offline,
+				// so the value is read the way the printer intended (not judged).
+				e = ps.expr(99)
 				n.Kids = append(n.Kids, &Node{Kind: "fieldval", Name: name, Kids: []*Node{e}, Line: line})
 			} else {
 				e = ps.expr(59)
